@@ -16,6 +16,7 @@
 """
 import io
 import json
+import re
 import tokenize
 from concurrent.futures import ProcessPoolExecutor
 
@@ -228,6 +229,12 @@ def shape(text: str) -> str:
 		feats.append('blank-line')
 	if '\t' not in text and '\n ' in text:
 		feats.append('space-indent')
+	if '\r\n' in text:
+		feats.append('crlf')
+	if not text.endswith('\n'):
+		feats.append('no-final-line-break')
+	if re.search(r'\n[ \t]+\r?\n', text):
+		feats.append('blanks-on-blank-line')
 	if '\\"' in text or "r'" in text:
 		feats.append('escapes')
 	return '+'.join(feats) or 'canonical'
